@@ -234,7 +234,8 @@ struct Impl : Drv {
         out.berr.assign(berr.begin(), berr.begin() + (nrhs > 0 ? nrhs : 0));
         out.rpg = rpg; out.rcond = rcond;
         out.mem_for_lu = mu.for_lu; out.mem_total_needed = mu.total_needed; out.mem_expansions = mu.expansions;
-        if (o.fact != FACTORED && o.lwork != -1) haveLU = (info >= 0 && (info <= n + 1));
+        // a re-factorization that runs out of memory leaves the caller with the L and U it passed in (still to be destroyed by the caller)
+        if (o.fact != FACTORED && o.lwork != -1 && !(o.refact && haveLU && info > n + 1)) haveLU = (info >= 0 && (info <= n + 1));
         out.work_guard_ok = guards_ok();
         out.lu_inside_work = lu_inside();
         out.lu_outside_which = lu_outside_which;
